@@ -1,4 +1,5 @@
 import MLProps.Bridge
+import MLProps.LogDet
 import Mathlib.Algebra.BigOperators.Group.List.Basic
 import Mathlib.LinearAlgebra.Matrix.NonsingularInverse
 import Mathlib.Tactic.Linarith
@@ -195,3 +196,227 @@ theorem C12_pd (V : Mat ℝ d d) (w : Vec ℝ d) (hV : Matrix.of V * (Matrix.of 
   calc 0 < m i0 * (∑ a, V a i0 * x a) ^ 2 := hi
     _ ≤ ∑ i, m i * (∑ a, V a i * x a) ^ 2 :=
         Finset.single_le_sum (fun i _ => hpos i) (Finset.mem_univ i0)
+
+/-! ## convexity: the objective lies above its tangent planes, so stationary points are global minimisers -/
+
+/-- first-order (supporting-hyperplane) inequality of the one-sided squared difference of square roots,
+in the variables `a = √x`, `b = √y` of the expansion point -/
+theorem hinge_first_order_ab (a b x' y' : ℝ) (ha : 0 < a) (hb : 0 < b) (hab : b < a) (hx' : 0 ≤ x') (hy' : 0 ≤ y') :
+    (1 - b / a) * x' + (1 - a / b) * y' ≤ (if y' < x' then (Real.sqrt x' - Real.sqrt y') ^ 2 else 0) := by
+  have hs : 0 < b / a := div_pos hb ha
+  have hinv : a / b = (b / a)⁻¹ := by rw [inv_div]
+  set s := b / a with hsdef
+  have hs1 : s < 1 := by rw [hsdef, div_lt_one ha]; exact hab
+  split
+  · -- AM–GM
+    have hsx := Real.sq_sqrt hx'
+    have hsy := Real.sq_sqrt hy'
+    have hsqs := Real.sq_sqrt hs.le
+    have key : 0 ≤ (Real.sqrt s * Real.sqrt x' - (Real.sqrt s)⁻¹ * Real.sqrt y') ^ 2 := sq_nonneg _
+    have hss : 0 < Real.sqrt s := Real.sqrt_pos.mpr hs
+    have e : (Real.sqrt s * Real.sqrt x' - (Real.sqrt s)⁻¹ * Real.sqrt y') ^ 2
+        = s * x' + s⁻¹ * y' - 2 * (Real.sqrt x' * Real.sqrt y') := by
+      have h1 : (Real.sqrt s)⁻¹ ^ 2 = s⁻¹ := by rw [inv_pow, hsqs]
+      have h2 : Real.sqrt s * (Real.sqrt s)⁻¹ = 1 := mul_inv_cancel₀ hss.ne'
+      calc (Real.sqrt s * Real.sqrt x' - (Real.sqrt s)⁻¹ * Real.sqrt y') ^ 2
+          = (Real.sqrt s) ^ 2 * (Real.sqrt x') ^ 2 + (Real.sqrt s)⁻¹ ^ 2 * (Real.sqrt y') ^ 2
+            - 2 * (Real.sqrt s * (Real.sqrt s)⁻¹) * (Real.sqrt x' * Real.sqrt y') := by ring
+        _ = s * x' + s⁻¹ * y' - 2 * (Real.sqrt x' * Real.sqrt y') := by rw [hsqs, hsx, hsy, h1, h2]; ring
+    rw [e] at key
+    rw [hinv]
+    have : (Real.sqrt x' - Real.sqrt y') ^ 2 = x' + y' - 2 * (Real.sqrt x' * Real.sqrt y') := by
+      calc (Real.sqrt x' - Real.sqrt y') ^ 2 = (Real.sqrt x') ^ 2 + (Real.sqrt y') ^ 2 - 2 * (Real.sqrt x' * Real.sqrt y') := by ring
+        _ = _ := by rw [hsx, hsy]
+    rw [this]; linarith
+  · rename_i hle
+    have hle' : x' ≤ y' := not_lt.mp hle
+    rw [hinv]
+    have h2 : 2 ≤ s + s⁻¹ := by
+      have : 0 ≤ (s - 1) ^ 2 := sq_nonneg _
+      have hne : s ≠ 0 := hs.ne'
+      have : s + s⁻¹ - 2 = (s - 1) ^ 2 / s := by field_simp; ring
+      have hq : 0 ≤ (s - 1) ^ 2 / s := div_nonneg (sq_nonneg _) hs.le
+      linarith
+    have h1 : (1 - s) * x' ≤ (1 - s) * y' := mul_le_mul_of_nonneg_left hle' (by linarith)
+    nlinarith
+
+theorem frob_outer_sub (M N : Mat ℝ d d) (v : Vec ℝ d) (c : ℝ) :
+    ∑ a, ∑ b, (c * (v a * v b)) * (N a b - M a b) = c * (quadForm N v - quadForm M v) := by
+  simp only [quadForm, vsum_eq_sum, Finset.mul_sum, ← Finset.sum_sub_distrib]
+  apply Finset.sum_congr rfl; intro a _
+  apply Finset.sum_congr rfl; intro b _
+  ring
+
+theorem lossTerm_nonneg (N : Mat ℝ d d) (q : Vec ℝ d × Vec ℝ d × ℝ) (hw : 0 ≤ q.2.2) : 0 ≤ lossTerm N q := by
+  unfold lossTerm; split
+  · exact mul_nonneg hw (mul_self_nonneg _)
+  · exact le_refl _
+
+/-- one constraint: its loss lies above the tangent plane taken at `M` -/
+theorem term_first_order (M N : Mat ℝ d d) (q : Vec ℝ d × Vec ℝ d × ℝ) (hw : 0 ≤ q.2.2)
+    (hy : 0 < quadForm M q.2.1) (hx' : 0 ≤ quadForm N q.1) (hy' : 0 ≤ quadForm N q.2.1) :
+    lossTerm M q + ∑ a, ∑ b, gradTerm M a b q * (N a b - M a b) ≤ lossTerm N q := by
+  by_cases hact : quadForm M q.2.1 < quadForm M q.1
+  · set x := quadForm M q.1 with hxdef
+    set y := quadForm M q.2.1 with hydef
+    have hx : 0 < x := lt_trans hy hact
+    have hgrad : ∀ a b, gradTerm M a b q = q.2.2 * (1 - Real.sqrt (y / x)) * (q.1 a * q.1 b)
+        + q.2.2 * (1 - Real.sqrt (x / y)) * (q.2.1 a * q.2.1 b) := by
+      intro a b; unfold gradTerm; rw [if_pos hact]; ring
+    have hsum : ∑ a, ∑ b, gradTerm M a b q * (N a b - M a b)
+        = q.2.2 * (1 - Real.sqrt (y / x)) * (quadForm N q.1 - x) + q.2.2 * (1 - Real.sqrt (x / y)) * (quadForm N q.2.1 - y) := by
+      simp only [hgrad, add_mul, Finset.sum_add_distrib]
+      rw [frob_outer_sub M N q.1, frob_outer_sub M N q.2.1]
+    rw [hsum]
+    set a := Real.sqrt x with hadef
+    set b := Real.sqrt y with hbdef
+    have ha : 0 < a := Real.sqrt_pos.mpr hx
+    have hb : 0 < b := Real.sqrt_pos.mpr hy
+    have hab : b < a := Real.sqrt_lt_sqrt hy.le hact
+    have hxa : x = a ^ 2 := (Real.sq_sqrt hx.le).symm
+    have hyb : y = b ^ 2 := (Real.sq_sqrt hy.le).symm
+    have h1 : Real.sqrt (y / x) = b / a := by rw [Real.sqrt_div hy.le]
+    have h2 : Real.sqrt (x / y) = a / b := by rw [Real.sqrt_div hx.le]
+    have hL : lossTerm M q = q.2.2 * ((a - b) * (a - b)) := by unfold lossTerm; rw [if_pos hact]
+    have hN : lossTerm N q = q.2.2 * (if quadForm N q.2.1 < quadForm N q.1 then
+        (Real.sqrt (quadForm N q.1) - Real.sqrt (quadForm N q.2.1)) ^ 2 else 0) := by
+      unfold lossTerm; split <;> ring
+    rw [hL, hN, h1, h2]
+    have key := hinge_first_order_ab a b (quadForm N q.1) (quadForm N q.2.1) ha hb hab hx' hy'
+    have ident : (a - b) * (a - b) + (1 - b / a) * (quadForm N q.1 - x) + (1 - a / b) * (quadForm N q.2.1 - y)
+        = (1 - b / a) * quadForm N q.1 + (1 - a / b) * quadForm N q.2.1 := by
+      rw [hxa, hyb]; field_simp; ring
+    calc q.2.2 * ((a - b) * (a - b)) + (q.2.2 * (1 - b / a) * (quadForm N q.1 - x) + q.2.2 * (1 - a / b) * (quadForm N q.2.1 - y))
+        = q.2.2 * ((a - b) * (a - b) + (1 - b / a) * (quadForm N q.1 - x) + (1 - a / b) * (quadForm N q.2.1 - y)) := by ring
+      _ = q.2.2 * ((1 - b / a) * quadForm N q.1 + (1 - a / b) * quadForm N q.2.1) := by rw [ident]
+      _ ≤ _ := mul_le_mul_of_nonneg_left key hw
+  · have hL : lossTerm M q = 0 := by unfold lossTerm; rw [if_neg hact]
+    have hg : ∀ a b, gradTerm M a b q = 0 := by intro a b; unfold gradTerm; rw [if_neg hact]
+    simp only [hL, hg, zero_mul, Finset.sum_const_zero, add_zero]
+    exact lossTerm_nonneg N q hw
+
+theorem sum_list_swap (quads : List (Vec ℝ d × Vec ℝ d × ℝ)) (g : Fin d → Fin d → (Vec ℝ d × Vec ℝ d × ℝ) → ℝ) (D : Mat ℝ d d) :
+    ∑ a, ∑ b, (quads.map (g a b)).sum * D a b = (quads.map fun q => ∑ a, ∑ b, g a b q * D a b).sum := by
+  induction quads with
+  | nil => simp
+  | cons q t ih =>
+    simp only [List.map_cons, List.sum_cons, add_mul, Finset.sum_add_distrib, ih]
+
+theorem list_sum_le_sum (l : List (Vec ℝ d × Vec ℝ d × ℝ)) (f g : (Vec ℝ d × Vec ℝ d × ℝ) → ℝ) (h : ∀ q ∈ l, f q ≤ g q) :
+    (l.map f).sum ≤ (l.map g).sum := by
+  induction l with
+  | nil => simp
+  | cons q t ih =>
+    simp only [List.map_cons, List.sum_cons]
+    exact add_le_add (h q List.mem_cons_self) (ih fun q' hq' => h q' (List.mem_cons_of_mem _ hq'))
+
+/-- **first-order inequality of LSML's objective**: for `M, N ≻ 0` the documented objective at `N` lies above
+its tangent plane at `M` built from the very gradient the solver computes — the objective is convex, for
+non-negative weights and non-collapsed second pairs -/
+theorem C12_first_order (M N P Minv : Mat ℝ d d) (quads : List (Vec ℝ d × Vec ℝ d × ℝ))
+    (hM : (Matrix.of M).PosDef) (hN : (Matrix.of N).PosDef) (hinv : Matrix.of M * Matrix.of Minv = 1)
+    (hw : ∀ q ∈ quads, 0 ≤ q.2.2) (hnz : ∀ q ∈ quads, q.2.1 ≠ 0) :
+    lsmlLoss M P (Real.log (Matrix.of M).det) quads
+      + ∑ a, ∑ b, lsmlGradient M P Minv quads a b * (N a b - M a b)
+      ≤ lsmlLoss N P (Real.log (Matrix.of N).det) quads := by
+  have hMs : ∀ a b, M a b = M b a := fun a b => by
+    have := congrFun (congrFun hM.isHermitian b) a; simpa using this
+  have hNs : ∀ a b, N a b = N b a := fun a b => by
+    have := congrFun (congrFun hN.isHermitian b) a; simpa using this
+  have hqM : ∀ v : Vec ℝ d, v ≠ 0 → 0 < quadForm M v := by
+    intro v hv; rw [quadForm_eq]; exact hM.dotProduct_mulVec_pos hv
+  have hqN : ∀ v : Vec ℝ d, 0 ≤ quadForm N v := by
+    intro v; rw [quadForm_eq]; exact hN.posSemidef.dotProduct_mulVec_nonneg v
+  -- the constraint part
+  have hterms : (quads.map fun q => lossTerm M q + ∑ a, ∑ b, gradTerm M a b q * (N a b - M a b)).sum
+      ≤ (quads.map (lossTerm N)).sum :=
+    list_sum_le_sum quads _ _ fun q hq =>
+      term_first_order M N q (hw q hq) (hqM q.2.1 (hnz q hq)) (hqN q.1) (hqN q.2.1)
+  have hsplit : (quads.map fun q => lossTerm M q + ∑ a, ∑ b, gradTerm M a b q * (N a b - M a b)).sum
+      = (quads.map (lossTerm M)).sum + (quads.map fun q => ∑ a, ∑ b, gradTerm M a b q * (N a b - M a b)).sum := by
+    induction quads with
+    | nil => simp
+    | cons q t ih =>
+      simp only [List.map_cons, List.sum_cons]
+      rw [ih (fun q' hq' => hw q' (List.mem_cons_of_mem _ hq')) (fun q' hq' => hnz q' (List.mem_cons_of_mem _ hq'))
+        (list_sum_le_sum t _ _ fun q' hq' => term_first_order M N q' (hw q' (List.mem_cons_of_mem _ hq'))
+          (hqM q'.2.1 (hnz q' (List.mem_cons_of_mem _ hq'))) (hqN q'.1) (hqN q'.2.1))]
+      ring
+  -- the LogDet part
+  set W := Matrix.of Minv with hW
+  have hWinv : (Matrix.of M)⁻¹ = W := Matrix.inv_eq_right_inv hinv
+  have hWpd : W.PosDef := hWinv ▸ hM.inv
+  have hdet : (Matrix.of M).det * W.det = 1 := by rw [← Matrix.det_mul, hinv, Matrix.det_one]
+  have hlogW : Real.log W.det = - Real.log (Matrix.of M).det := by
+    have hd := hM.det_pos
+    have : W.det = ((Matrix.of M).det)⁻¹ := by field_simp; linarith [hdet]
+    rw [this, Real.log_inv]
+  have hld := log_det_pd_le W (Matrix.of N) hWpd hN
+  have htrN : (W * Matrix.of N).trace = ∑ a, ∑ b, Minv a b * N a b := by
+    simp only [Matrix.trace, Matrix.diag, Matrix.mul_apply, Matrix.of_apply, hW]
+    apply Finset.sum_congr rfl; intro a _
+    apply Finset.sum_congr rfl; intro b _
+    rw [hNs b a]
+  have hWM : W * Matrix.of M = 1 := mul_eq_one_comm.mp hinv
+  have htrM : ∑ a, ∑ b, Minv a b * M a b = d := by
+    have : (W * Matrix.of M).trace = ∑ a, ∑ b, Minv a b * M a b := by
+      simp only [Matrix.trace, Matrix.diag, Matrix.mul_apply, Matrix.of_apply, hW]
+      apply Finset.sum_congr rfl; intro a _
+      apply Finset.sum_congr rfl; intro b _
+      rw [hMs b a]
+    rw [← this, hWM]; simp
+  -- assemble
+  simp only [lsmlLoss, lsmlComparisonLoss_eq_sum]
+  have hG : ∑ a, ∑ b, lsmlGradient M P Minv quads a b * (N a b - M a b)
+      = ∑ a, ∑ b, (P a b - Minv a b) * (N a b - M a b)
+        + (quads.map fun q => ∑ a, ∑ b, gradTerm M a b q * (N a b - M a b)).sum := by
+    simp only [C12_grad_form, add_mul, Finset.sum_add_distrib]
+    rw [sum_list_swap]
+  rw [hG]
+  have hP : ∑ a, ∑ b, (P a b - Minv a b) * (N a b - M a b)
+      = (frob N P - frob M P) - (∑ a, ∑ b, Minv a b * N a b - ∑ a, ∑ b, Minv a b * M a b) := by
+    simp only [frob, vsum_eq_sum, ← Finset.sum_sub_distrib]
+    apply Finset.sum_congr rfl; intro a _
+    apply Finset.sum_congr rfl; intro b _
+    ring
+  rw [hP, htrM, ← htrN]
+  rw [hsplit] at hterms
+  linarith
+
+/-- **a stationary point is the global minimiser** (over all positive definite matrices) -/
+theorem C12_stationary_global (M N P Minv : Mat ℝ d d) (quads : List (Vec ℝ d × Vec ℝ d × ℝ))
+    (hM : (Matrix.of M).PosDef) (hN : (Matrix.of N).PosDef) (hinv : Matrix.of M * Matrix.of Minv = 1)
+    (hw : ∀ q ∈ quads, 0 ≤ q.2.2) (hnz : ∀ q ∈ quads, q.2.1 ≠ 0)
+    (hstat : ∀ a b, lsmlGradient M P Minv quads a b = 0) :
+    lsmlLoss M P (Real.log (Matrix.of M).det) quads ≤ lsmlLoss N P (Real.log (Matrix.of N).det) quads := by
+  have := C12_first_order M N P Minv quads hM hN hinv hw hnz
+  simp only [hstat, zero_mul, Finset.sum_const_zero, add_zero] at this
+  exact this
+
+/-- **stopping with gradient norm below `tol`** (the solver's early-exit test, Frobenius norm): the result is
+within `tol · ‖N − M‖_F` of the objective at any positive definite `N` -/
+theorem C12_tol_suboptimal (M N P Minv : Mat ℝ d d) (quads : List (Vec ℝ d × Vec ℝ d × ℝ)) (tol : ℝ)
+    (hM : (Matrix.of M).PosDef) (hN : (Matrix.of N).PosDef) (hinv : Matrix.of M * Matrix.of Minv = 1)
+    (hw : ∀ q ∈ quads, 0 ≤ q.2.2) (hnz : ∀ q ∈ quads, q.2.1 ≠ 0)
+    (hgrad : Real.sqrt (∑ a, ∑ b, lsmlGradient M P Minv quads a b ^ 2) ≤ tol) :
+    lsmlLoss M P (Real.log (Matrix.of M).det) quads - lsmlLoss N P (Real.log (Matrix.of N).det) quads
+      ≤ tol * Real.sqrt (∑ a, ∑ b, (N a b - M a b) ^ 2) := by
+  have h1 := C12_first_order M N P Minv quads hM hN hinv hw hnz
+  set G := lsmlGradient M P Minv quads
+  -- Cauchy–Schwarz on the index set Fin d × Fin d
+  have hcs := Finset.sum_mul_sq_le_sq_mul_sq (Finset.univ : Finset (Fin d × Fin d))
+    (fun p => G p.1 p.2) (fun p => N p.1 p.2 - M p.1 p.2)
+  simp only [← Finset.univ_product_univ, Finset.sum_product] at hcs
+  set S := ∑ a, ∑ b, G a b * (N a b - M a b) with hS
+  set g2 := ∑ a, ∑ b, G a b ^ 2
+  set d2 := ∑ a, ∑ b, (N a b - M a b) ^ 2
+  have hg2 : 0 ≤ g2 := Finset.sum_nonneg fun a _ => Finset.sum_nonneg fun b _ => sq_nonneg _
+  have hd2 : 0 ≤ d2 := Finset.sum_nonneg fun a _ => Finset.sum_nonneg fun b _ => sq_nonneg _
+  have habs : |S| ≤ Real.sqrt g2 * Real.sqrt d2 := by
+    rw [← Real.sqrt_mul hg2, ← Real.sqrt_sq_eq_abs]
+    exact Real.sqrt_le_sqrt hcs
+  have hlow : -(Real.sqrt g2 * Real.sqrt d2) ≤ S := by
+    have := neg_abs_le S; linarith
+  have htol : Real.sqrt g2 * Real.sqrt d2 ≤ tol * Real.sqrt d2 :=
+    mul_le_mul_of_nonneg_right hgrad (Real.sqrt_nonneg _)
+  linarith
